@@ -71,11 +71,13 @@ theorem inlineRequire_errs (G : Graph P) (E : Err P → Prop) (Cond : Nat → Li
       (G.get p = some .badExtension → E (.badExtension p)) ∧
       (∀ sites, G.get p = some (.lua sites .noReturn) → E (.noReturn p)) ∧
       (∀ sites, G.get p = some (.lua sites .many) → E (.manyReturn p)) ∧
-      (∀ sites ret, G.get p = some (.lua sites ret) → ∀ s ∈ sites, ∀ q, s.target = .notFound q → E (.notFound q)))
+      (∀ sites ret, G.get p = some (.lua sites ret) → ∀ s ∈ sites, s.shadowed = false → ∀ q, s.target = .notFound q →
+        E (.notFound q)))
     (c0 : ∀ stack p, Cond 0 stack p → E .fuel)
     (c1 : ∀ n stack p i, Cond (n + 1) stack p → indexOf? p stack = some i → E (.cyclic (stack.drop i ++ [p])))
     (c2 : ∀ n stack p sites ret, Cond (n + 1) stack p → indexOf? p stack = none →
-      G.get p = some (.lua sites ret) → ∀ s ∈ sites, ∀ q, s.target = .file q → Cond n (stack ++ [p]) q)
+      G.get p = some (.lua sites ret) → ∀ s ∈ sites, s.shadowed = false → ∀ q, s.target = .file q →
+        Cond n (stack ++ [p]) q)
     (n : Nat) : ∀ stack p, Cond n stack p → InlOk E (inlineRequire G n stack) p := by
   induction n with
   | zero =>
@@ -100,21 +102,87 @@ theorem inlineRequire_errs (G : Graph P) (E : Err P → Prop) (Cond : Nat → Li
           exact ⟨h, fun e he => by simp at he; subst he; exact hn.2.2.1 hget⟩
         · exact ⟨h, fun e he => by simp at he⟩
         · rename_i sites ret hget
-          have hv : ErrsSat E (visit (inlineRequire G n (stack ++ [p])) false sites st).2 :=
-            visit_errs E _ false sites
-              (fun s hs q hq _ => hn.2.2.2.2.2 sites ret hget s hs q hq)
-              (fun s hs q hq _ => ih (stack ++ [p]) q (c2 n stack p sites ret hc hidx hget s hs q hq)) st h
+          have hv : ErrsSat E (visit (inlineRequire G n (stack ++ [p])) true sites st).2 :=
+            visit_errs E _ true sites
+              (fun s hs q hq ha => hn.2.2.2.2.2 sites ret hget s hs (by simpa using ha) q hq)
+              (fun s hs q hq ha => ih (stack ++ [p]) q
+                (c2 n stack p sites ret hc hidx hget s hs (by simpa using ha) q hq)) st h
           split
           · exact ⟨hv, fun e he => by simp at he; subst he; exact hn.2.2.2.1 sites hget⟩
           · exact ⟨hv, fun e he => by simp at he; subst he; exact hn.2.2.2.2.1 sites hget⟩
           · exact ⟨hv, fun e he => by simp at he⟩
 
+/-! ### an invariant of the emitted definitions -/
+
+/-- every emitted definition `(path, decisions)` satisfies `Q` -/
+def DefsSat (Q : P → List (Option Nat) → Prop) (st : St P) : Prop := ∀ pd ∈ st.defs, Q pd.1 pd.2
+
+theorem tryInline_defs (Q : P → List (Option Nat) → Prop) (inl : P → St P → Except (Err P) Nat × St P) (isEntry : Bool)
+    (s : Site P) (hinl : ∀ q st, DefsSat Q st → DefsSat Q (inl q st).2) (st : St P) (h : DefsSat Q st) :
+    DefsSat Q (tryInline inl isEntry s st).2 := by
+  unfold tryInline
+  split
+  · exact h
+  · split
+    · exact h
+    · exact h
+    · rename_i p _
+      split
+      · exact h
+      · have := hinl p st h
+        split
+        · rename_i i st' heq; rw [heq] at this; exact this
+        · rename_i e st' heq; rw [heq] at this; exact this
+
+theorem visit_defs (Q : P → List (Option Nat) → Prop) (inl : P → St P → Except (Err P) Nat × St P) (isEntry : Bool)
+    (sites : List (Site P)) (hinl : ∀ q st, DefsSat Q st → DefsSat Q (inl q st).2) (st : St P) (h : DefsSat Q st) :
+    DefsSat Q (visit inl isEntry sites st).2 := by
+  induction sites generalizing st with
+  | nil => exact h
+  | cons s rest ih =>
+    simp only [visit]
+    exact ih _ (tryInline_defs Q inl isEntry s hinl st h)
+
+theorem inlineRequire_defs (G : Graph P) (Q : P → List (Option Nat) → Prop)
+    (hdata : ∀ p, G.get p = some .data → Q p [])
+    (hlua : ∀ p sites ret (inl : P → St P → Except (Err P) Nat × St P) st, G.get p = some (.lua sites ret) →
+      Q p (visit inl true sites st).1)
+    (n : Nat) : ∀ stack p st, DefsSat Q st → DefsSat Q (inlineRequire G n stack p st).2 := by
+  induction n with
+  | zero => intro stack p st h; exact h
+  | succ n ih =>
+    intro stack p st h
+    unfold inlineRequire
+    split
+    · exact h
+    · split
+      · exact h
+      · split
+        · exact h
+        · exact h
+        · exact h
+        · rename_i hget
+          intro pd hpd
+          simp at hpd
+          rcases hpd with hpd | hpd
+          · exact h pd hpd
+          · subst hpd; exact hdata p hget
+        · rename_i sites ret hget
+          have hv := visit_defs Q (inlineRequire G n (stack ++ [p])) true sites (ih (stack ++ [p])) st h
+          split
+          · exact hv
+          · exact hv
+          · intro pd hpd
+            simp at hpd
+            rcases hpd with hpd | hpd
+            · exact hv pd hpd
+            · subst hpd; exact hlua p sites _ _ st hget
+
 /-! ### the graph relations -/
 
-/-- `p` has a call site resolving to `q` (what the walk follows inside required modules: the
-shadowing flag is ignored there, as in the Rust) -/
+/-- `p` has an unshadowed call site resolving to `q` (what the walk follows inside a module) -/
 def Edge (G : Graph P) (p q : P) : Prop :=
-  ∃ sites ret, G.get p = some (.lua sites ret) ∧ ∃ s ∈ sites, s.target = .file q
+  ∃ sites ret, G.get p = some (.lua sites ret) ∧ ∃ s ∈ sites, s.shadowed = false ∧ s.target = .file q
 
 /-- the files the entry requires through an unshadowed call -/
 def Root (entrySites : List (Site P)) (q : P) : Prop :=
